@@ -147,7 +147,7 @@ def pathEnc (c : Cfg) (v : Val) : Except Out Bytes :=
           pre ++ (List.intercalate pre es)
       | _ => join 0x2c es)
   | .obj fields =>
-    if fields.isEmpty then .error .panic else   -- typeNotSet: "encoder was not called, no value"
+    if fields.isEmpty then .error .encErr else   -- typeNotSet: "encoder was not called, no value" (an error since the D13 fix)
     let (kv, fs) := objSeps c.style c.explode
     if fields.any (fun (k, v) => contains k kv || contains v fs) then .error .encErr else
     let es := fields.map (fun (k, v) => (pathEscape k, pathEscape v))
@@ -354,19 +354,78 @@ def showVal : Val → String
 def normalize : Val → Val
   | v => v
 
+/-- `validateParamStyle`'s table (openapi/parser/parse_parameter.go); tied to the code by exhaustive comparison over the whole location × style × explode × shape grid: the harness asks the real parser + generator whether a parameter of that configuration is accepted -/
+def admitted (c : Cfg) : Bool :=
+  match c.loc, c.style, c.explode, c.shape with
+  | .path, .simple, _, _ | .path, .label, _, _ | .path, .matrix, _, _ => true
+  | .query, .form, _, _ => true
+  | .query, .pipe, _, .arr => true
+  | .query, .deep, true, .obj => true
+  | .header, .simple, _, _ => true
+  | .cookie, .form, true, .prim => true
+  | .cookie, .form, false, _ => true
+  | _, _, _, _ => false
+
+
+def parseCfg (loc style ex shape name : String) : Option Cfg :=
+  let l := match loc with | "path" => some Loc.path | "query" => some .query | "header" => some .header | "cookie" => some .cookie | _ => none
+  let st := match style with | "simple" => some Style.simple | "label" => some .label | "matrix" => some .matrix | "form" => some .form | "pipeDelimited" => some .pipe | "deepObject" => some .deep | _ => none
+  let sh := match shape with | "prim" => some Shape.prim | "arr" => some .arr | "obj" => some .obj | _ => none
+  match l, st, sh with
+  | some l, some st, some sh => some ⟨l, st, ex == "true", sh, hx name⟩
+  | _, _, _ => none
+
+/-- `admit <loc> <style> <explode> <shape>`; styles outside the model (spaceDelimited) are never admitted -/
+def admitLine (line : String) : String :=
+  match line.splitOn " " with
+  | [loc, style, ex, shape] =>
+    match parseCfg loc style ex shape "70" with
+    | some c => if admitted c then "1" else "0"
+    | none => "0"
+  | _ => "bad-line"
+
+/-- canonical rendering of what travels: path segment / sorted query multimap / header or cookie value -/
+def wireOf (c : Cfg) (v : Val) : String :=
+  match c.loc with
+  | .path => match pathEnc c v with | .ok w => "w:" ++ toHex w | .error _ => "-"
+  | .query =>
+    match queryEnc c v with
+    | .ok vs =>
+      let items := vs.map fun (k, xs) => toHex k ++ "=" ++ ",".intercalate (xs.map toHex)
+      "q:" ++ "&".intercalate (items.mergeSort (fun a b => a ≤ b))
+    | .error _ => "-"
+  | .header => match headerEnc c v with | .ok (some w) => "h:" ++ toHex w | .ok none => "none" | .error _ => "-"
+  | .cookie => match cookieEnc c v with | .ok (some w) => "c:" ++ toHex w | .ok none => "none" | .error _ => "-"
+
+def showOut : Out → String
+  | .ok v => "ok " ++ showVal v
+  | .encErr => "enc-err"
+  | .decErr => "dec-err"
+  | .absent => "absent"
+  | .panic => "panic"
+
+/-- `codec <loc> <style> <explode> <shape> <name hex> <value>`: outcome of the round trip and the wire -/
 def runLine (line : String) : String :=
   match line.splitOn " " with
   | [loc, style, ex, shape, name, val] =>
-    let l := match loc with | "path" => Loc.path | "query" => .query | "header" => .header | _ => .cookie
-    let st := match style with | "simple" => Style.simple | "label" => .label | "matrix" => .matrix | "form" => .form | "pipeDelimited" => .pipe | _ => .deep
-    let sh := match shape with | "prim" => Shape.prim | "arr" => .arr | _ => .obj
-    let c : Cfg := ⟨l, st, ex == "true", sh, hx name⟩
-    match roundTrip c (parseVal val) with
-    | .ok v => "ok " ++ showVal v
-    | .encErr => "enc-err"
-    | .decErr => "dec-err"
-    | .absent => "absent"
-    | .panic => "panic"
+    match parseCfg loc style ex shape name with
+    | some c => let v := parseVal val; showOut (roundTrip c v) ++ " | " ++ wireOf c v
+    | none => "bad-cfg"
   | _ => "bad-line"
-end Codec
 
+/-- `cookie <hex>`: escapeCookie and unescape of the result -/
+def cookieLine (line : String) : String :=
+  let s := hx line.trimAscii.toString
+  let e := escapeCookie s
+  toHex e ++ " " ++ (match pctUnescape false e with | some u => toHex u | none => "err")
+
+/-- `cookiebyte <hex byte>`: the escape table (`cookieEscapeChars` plus every byte ≥ 128) -/
+def cookieByteLine (line : String) : String :=
+  match hx line.trimAscii.toString with
+  | [c] => if cookieMustEscape c then "1" else "0"
+  | _ => "bad-byte"
+
+/-- `uncookie <hex>`: unescapeCookie on arbitrary input -/
+def uncookieLine (line : String) : String :=
+  match pctUnescape false (hx line.trimAscii.toString) with | some u => "ok:" ++ toHex u | none => "err"
+end Codec
